@@ -15,7 +15,8 @@ RULE = ('corpus; exhaustive scope: every 3-valued surface on the grids 1x1..2x3 
         'the kernel never writes differs from the specification. Non-trivial = at least one pixel is flooded from a '
         'marker; distinct = distinct protocol line + layouts.')
 ASSUMPTIONS = ['surface values are not NaN (no strict weak order otherwise); floating surfaces are compared through their '
-               'dense ranks (the flooding only compares costs; -0.0 == 0.0)',
+               'dense ranks (the flooding only compares costs: theorem C04_dense_rank_invariant / '
+               'C04_order_isomorphism_invariant; -0.0 == 0.0)',
                'markers are integer images of the shape of the surface (morph.py rejects anything else); labels fit int64',
                'the neighbourhood is the set of non-zero entries of Bc after the cast to the surface dtype that '
                'get_structuring_elem performs',
